@@ -24,8 +24,9 @@
    * ranks_per_node of NodeList._assert_rr is a float quotient in the code and
      an exact fraction here (the harness generates sizes for which both agree).
    * `while True` in find_slots has no bound in the code; the model gives each
-     node 64 * (number of cores) + 1 rounds and answers EHang when they are
-     used up (Proofs.find_slots_no_hang: never, for positive occupations).
+     node (free units of its cores) + n_slots + 1 rounds and answers EHang when they are
+     used up (Hang.find_slots_never_hangs: never, in ANY state, for requests
+     with n_cores > 0 and a core occupation of at least one unit).
    Not modelled: NumaNode/NumaNodeList (rr.numa is carried, Node.find_slot
    ignores it as the code does), the int-list form of Slot.cores (Slot()
    converts it before any Node method sees it), FastTypedDict type casts. *)
@@ -307,7 +308,19 @@ Fixpoint node_loop (fuel : nat) (nd : node) (r : rreq) (n : Z) (slots : list slo
       end
   end.
 
-Definition node_fuel (nd : node) : nat := S (Z.to_nat (BUSY * zlen (nd_cores nd))).
+(* the rounds granted to one node: what its cores have free, in units, plus n_slots, plus one -- every
+   slot found (n_cores >= 1, core occupation >= one unit) uses up at least one unit of a core that had
+   room for it, whatever the occupations are (also outside FREE .. BUSY, e.g. negative after a release
+   of something that was not held); with a core occupation of 0 nothing is used up and the loop ends
+   when n_slots slots are collected *)
+Fixpoint free_pos (cs : list (option Z)) : Z :=
+  match cs with
+  | [] => 0
+  | None :: t => free_pos t
+  | Some o :: t => Z.max 0 (BUSY - o) + free_pos t
+  end.
+
+Definition node_fuel (nd : node) (n : Z) : nat := S (Z.to_nat (free_pos (nd_cores nd)) + Z.to_nat n).
 
 (* `for i in range(0, len(self.nodes))` *)
 Fixpoint nodes_loop (cnt : nat) (i : Z) (start : Z) (ns : list node) (r : rreq) (n : Z)
@@ -320,7 +333,7 @@ Fixpoint nodes_loop (cnt : nat) (i : Z) (start : Z) (ns : list node) (r : rreq) 
       match nth_error ns (Z.to_nat idx) with
       | None => (ns, slots, stop, Some EIndex)
       | Some nd =>
-          let '(nd', slots', hit, e) := node_loop (node_fuel nd) nd r n slots in
+          let '(nd', slots', hit, e) := node_loop (node_fuel nd n) nd r n slots in
           let ns' := upd ns (Z.to_nat idx) nd' in
           let stop' := if hit then Some idx else stop in
           match e with
